@@ -41,6 +41,11 @@ func (c *Client) keepaliveLoop(ctx context.Context) error {
 	for {
 		select {
 		case <-ticker.C:
+			// A tick may have been waiting since before the client left the
+			// active state: no keep-alive is due then.
+			if c.state.Get() != util.StateActive {
+				continue
+			}
 			if err := c.Ping(); err != nil && err != errPingAbandoned {
 				return err
 			}
